@@ -1,6 +1,10 @@
 package drivers
 
 import (
+	"runtime"
+	"sync"
+	"sync/atomic"
+	"time"
 	"encoding/json"
 	"fmt"
 	"math/rand"
@@ -92,3 +96,35 @@ func (ts *traceSet) close(extra map[string]any) {
 }
 
 func itoa(i int) string { return strconv.Itoa(i) }
+
+var (
+	lastBeat  atomic.Int64
+	lastScen  atomic.Value
+	watchOnce sync.Once
+)
+
+// beat records that a new scenario starts; the watchdog measures real time
+// from here.
+func beat(scenario any) {
+	lastBeat.Store(time.Now().UnixNano())
+	b, _ := json.Marshal(scenario)
+	lastScen.Store(string(b))
+	watchOnce.Do(func() {
+		limit := time.Duration(envInt("VERIF_HANG_S", 40)) * time.Second
+		go func() {
+			for {
+				time.Sleep(time.Second)
+				if time.Since(time.Unix(0, lastBeat.Load())) > limit {
+					// A scenario that makes no progress in real time:
+					// inside a synctest bubble that is a goroutine
+					// waiting on a mutex or other non-durable block
+					// that is never released.
+					buf := make([]byte, 1<<20)
+					n := runtime.Stack(buf, true)
+					fmt.Printf("VERIF-HANG scenario=%v\n%s\n", lastScen.Load(), buf[:n])
+					os.Exit(3)
+				}
+			}
+		}()
+	})
+}
